@@ -1,5 +1,5 @@
 (* C20 - shutdown safety. Property theorems only; proofs in Locks.v. *)
-From Rosmar Require Import Base Locks.
+From Rosmar Require Import Base Locks LockStop.
 
 (* lock-rank discipline: threads that take locks in strictly increasing rank and release what they took
    never deadlock - for every number of threads and every schedule *)
@@ -22,8 +22,44 @@ Theorem C20_paths_no_deadlock : forall progs sched,
 Proof. exact rosmar_paths_no_deadlock. Qed.
 Print Assumptions C20_paths_no_deadlock.
 
-(* ... except the expiry timer's callback, which takes bucket.mutex while holding expiryManager.mutex:
-   against CloseAndDelete a stuck configuration is reachable (KNOWN_FINDINGS KF-C20-deadlock) *)
-Theorem C20_timer_deadlock_refuted : exists sched, stuck (lexec sched (linit [path_timer; path_close_and_delete])) = true.
+(* ... except the expiry timer's callback, which takes bucket.mutex while holding expiryManager.mutex. Against the
+   CloseAndDelete of the pinned tree (bucket.mutex, then expiryManager.mutex) a stuck configuration is reachable:
+   the defect recorded as KF-C20-deadlock and repaired by fix 2f1f33b of /repo *)
+Theorem C20_timer_deadlock_before_the_fix : exists sched, stuck (lexec sched (linit [path_timer; path_close_and_delete])) = true.
 Proof. exact timer_vs_delete_deadlocks. Qed.
-Print Assumptions C20_timer_deadlock_refuted.
+Print Assumptions C20_timer_deadlock_before_the_fix.
+
+(* Since the fixes the store carries a shut-down flag: CloseAndDelete sets it and waits for a running sweep before
+   it takes bucket.mutex, the callback does nothing once the flag is set (LockStop.v: threads of Acq / Rel / SetStop /
+   IfStopped actions).  For the timer callback together with CloseAndDelete, a writer and a feed start - every
+   schedule - no reachable configuration is stuck ... *)
+Theorem C20_timer_vs_close_and_delete_no_deadlock : forall sched,
+  gstuck (gexec sched (ginit [g_timer; g_close_and_delete; g_write; g_start_feed])) = false.
+Proof. exact timer_vs_close_and_delete_no_deadlock. Qed.
+Print Assumptions C20_timer_vs_close_and_delete_no_deadlock.
+
+(* ... nor with the last Close of an on-disk bucket, a writer and DropDataStore ... *)
+Theorem C20_timer_vs_last_close_no_deadlock : forall sched,
+  gstuck (gexec sched (ginit [g_timer; g_close_last; g_write; g_drop])) = false.
+Proof. exact timer_vs_last_close_no_deadlock. Qed.
+Print Assumptions C20_timer_vs_last_close_no_deadlock.
+
+(* ... nor with both shutdown calls at once (the three-lock cycle cluster.lock -> expiryManager.mutex -> bucket.mutex ->
+   cluster.lock is not reachable either), and when all have finished no lock is held *)
+Theorem C20_timer_vs_both_shutdowns_no_deadlock : forall sched,
+  gstuck (gexec sched (ginit [g_timer; g_close_and_delete; g_close_last; g_write])) = false.
+Proof. exact timer_vs_both_shutdowns_no_deadlock. Qed.
+Print Assumptions C20_timer_vs_both_shutdowns_no_deadlock.
+
+Theorem C20_shutdown_leaves_no_lock : forall sched,
+  gall_done (gexec sched (ginit [g_timer; g_close_and_delete; g_close_last; g_write])) = true ->
+  gc_held (gexec sched (ginit [g_timer; g_close_and_delete; g_close_last; g_write])) = [].
+Proof. exact shutdown_leaves_no_lock. Qed.
+Print Assumptions C20_shutdown_leaves_no_lock.
+
+(* the sweep never waits for bucket.mutex while CloseAndDelete holds it: in no reachable configuration is the
+   callback past its test of the flag, holding expiryManager.mutex, with CloseAndDelete inside its locked part *)
+Theorem C20_sweep_never_inside_a_shutdown : forall sched,
+  sweep_inside_shutdown (gexec sched (ginit [g_timer; g_close_and_delete; g_write; g_start_feed])) = false.
+Proof. exact sweep_never_waits_for_close_and_delete. Qed.
+Print Assumptions C20_sweep_never_inside_a_shutdown.
